@@ -132,13 +132,21 @@ TrAligned ==
     /\ Ln.al = Align([k |-> Ln.k, e |-> Ln.e, o |-> 0, end |-> -1], Ln.last)
     /\ UNCHANGED vars
 
+(* A Stuck line is never accepted.  The driver writes it only for a structural reason seen unchanged in several *)
+(* observations while it waits for something that does not come: a worker goroutine of the scheduler is gone, *)
+(* or an item is due with nothing in flight, no tick waiting, the timer not armed for a time <= now and the    *)
+(* loop parked in its select.  In the specification the run of a due occurrence is always eventually enabled  *)
+(* (EventuallyRuns under fairness; NeverStranded: a due item never waits for the clock to move; workers never *)
+(* disappear), so no behaviour contains such a state.                                                          *)
+TrStuck == IsEv("Stuck") /\ FALSE /\ UNCHANGED vars
+
 TrEnd ==
     /\ IsEv("End") /\ pend = NoOp /\ Ln.now = now
     /\ \A w \in Workers : wk[w].st \in {"idle", "park"}
     /\ \A x \in queue : x.when > now               \* nothing due was left behind
     /\ UNCHANGED vars
 
-TrNext == TrReset \/ TrAligned \/ TrCall \/ TrApiDo \/ TrRet \/ TrAdvBegin \/ TrAdvEnd \/ TrDispatch
+TrNext == TrReset \/ TrStuck \/ TrAligned \/ TrCall \/ TrApiDo \/ TrRet \/ TrAdvBegin \/ TrAdvEnd \/ TrDispatch
           \/ TrExecStart \/ TrExecEnd \/ TrCkpt \/ TrEnd
 TrSpec == TrInit /\ [][TrNext]_tvars
 
